@@ -94,6 +94,20 @@ Example C06_uf_nonvacuous :
   uf_atomize [(1, 1); (2, 1); (3, 2); (5, 5)]%N = [[(2, 1)]; [(3, 2)]]%N.
 Proof. split; reflexivity. Qed.
 
+(* Pure-cycle parent maps (no self-parent root; `find` closes the loop on the fly; the crate's
+   test_malformed treats a loop as one group) are NOT covered by the theorems above ([W uf_ops] =
+   forest).  NOT PROVED: the C06 statement for "forest or pure-cycle components".  For those values
+   the executable property is evaluated on the implementation's atoms and the model is compared on
+   every run (generator: about 40% of the UnionFind cases); one instance on the model: *)
+Example C06_uf_pure_cycle_instance :
+  let a := [(0, 1); (1, 2); (2, 0); (4, 4); (5, 4)]%N in
+  uf_wf a = false /\
+  uf_atomize a = [[(0, 1)]; [(1, 2)]; [(2, 0)]; [(5, 4)]]%N /\
+  forallb (fun x => negb (uf_isbot x)) (uf_atomize a) = true /\
+  eqb uf_ops a (uf_remerge uf_dflt (uf_atomize a)) = true /\
+  uf_classes 8 (uf_remerge uf_dflt (uf_atomize a)) = uf_classes 8 a.
+Proof. vm_compute. repeat split. Qed.
+
 (* non-vacuity: a nested atomizable code, a well-formed value with a bottom-valued entry, an
    entry holding the adjoined top and one holding Some(bottom); its atoms *)
 Example C06_nonvacuous :
